@@ -49,6 +49,7 @@ func newBatchEnv(seed int64, nDID int, maxOps uint) *batchEnv {
 	p := world.DefaultProtocol()
 	p.MultihashAlgorithms = []uint{world.SHA256}
 	p.MaxOperationCount = maxOps
+	p.Patches = []string{"replace", "add-public-keys", "remove-public-keys", "add-services", "remove-services", "ietf-json-patch"}
 	cas := world.NewMapCAS()
 	ver := world.NewVersion("1.0", p, world.VersionOpts{CAS: cas, ParserOpts: []operationparser.Option{operationparser.WithAnchorTimeValidator(expiryTV{})}})
 	kp := world.NewKeyPool(15)
@@ -519,6 +520,32 @@ func allMutations() []mutation {
 	ms = append(ms, listMut("provProof.update", "provProof", "operations", "update")...)
 	ms = append(ms, listMut("chunk.deltas", "chunk", "deltas")...)
 	ms = append(ms, listMut("provIndex.chunks", "provIndex", "chunks")...)
+	// a delta that is well-formed but uses a patch action the protocol does not enable / an unknown action
+	for _, pj := range []string{`{"action":"add-also-known-as","uris":["https://alias.example"]}`, `{"action":"frobnicate","x":1}`} {
+		pj := pj
+		ms = append(ms, mutation{name: "chunk.deltas:disabled-action", f: func(e *batchEnv, fs *fileSet) bool {
+			l, set := listAt(fs.chunk, "deltas")
+			if set == nil || len(l) == 0 {
+				return false
+			}
+			n := append([]interface{}{}, l...)
+			i := e.rng.Intn(len(n))
+			d, ok := n[i].(map[string]interface{})
+			if !ok {
+				return false
+			}
+			var pv interface{}
+			world.Must(json.Unmarshal([]byte(pj), &pv))
+			nd := map[string]interface{}{}
+			for k, v := range d {
+				nd[k] = v
+			}
+			nd["patches"] = []interface{}{pv}
+			n[i] = nd
+			set(n)
+			return true
+		}})
+	}
 	setField := func(name, file, field string, val interface{}, keep string) mutation {
 		return mutation{name: name, f: func(e *batchEnv, fs *fileSet) bool {
 			m := map[string]map[string]interface{}{"core": fs.core, "provIndex": fs.provIndex}[file]
@@ -691,6 +718,25 @@ func runC14(c *ctx) error {
 			// well-formedness oracle on the implementation's own answer
 			seen := map[string]bool{}
 			for _, o := range rb {
+				var rq struct {
+					Delta *struct {
+						Patches []map[string]interface{} `json:"patches"`
+					} `json:"delta"`
+				}
+				if json.Unmarshal(o.OperationRequest, &rq) == nil && rq.Delta != nil {
+					for _, pt := range rq.Delta.Patches {
+						a, _ := pt["action"].(string)
+						enabled := false
+						for _, x := range e.p.Patches {
+							if x == a {
+								enabled = true
+							}
+						}
+						if !enabled {
+							r.Direct = append(r.Direct, out.Direct{Oracle: "returned_deltas_use_enabled_actions", What: "action " + a, Case: desc})
+						}
+					}
+				}
 				if seen[o.UniqueSuffix] {
 					r.Direct = append(r.Direct, out.Direct{Oracle: "distinct_suffixes", What: o.UniqueSuffix, Case: desc})
 				}
